@@ -36,6 +36,132 @@ def rand_nd_op(rng, d=None, out=0, maxbins=4, names=True, dtype=None):
             "names": nm, "keep": True}, axes
 
 
+# ------------------------------------------------------------------ narrow content types, contents near the type's limits
+
+INT_LIMIT = {"int16": 2**15 - 1, "int32": 2**31 - 1}
+# float types: contents are integer multiples of `unit` with coefficients adding up to at most `coef` over the whole
+# histogram, so every partial sum (marginal, running sum, total) is exactly representable and inside the type's range
+FLOAT_GRID = {"float16": (2**5, 2**11 - 1), "float32": (2**104, 2**24 - 1)}
+WIDE = {"int16": "int64", "int32": "int64", "float16": "float64", "float32": "float64"}
+
+
+def near_limit_ints(rng, lim, size):
+    """non-negative integers, each inside the type's range, most of them in its upper part: sums of two or more of them
+    along any axis leave the range"""
+    def one():
+        r = rng.random()
+        if r < 0.3:
+            return lim - rng.randint(0, 3)
+        if r < 0.6:
+            return lim - rng.randint(0, lim // 4)
+        if r < 0.85:
+            return rng.randint(lim // 3, lim)
+        return rng.choice([0, 1, 2, 5])
+    return [one() for _ in range(size)]
+
+
+def near_limit_floats(rng, dt, size, longest):
+    # the budget leaves room for the total of the running sums along the longest axis (a float type adds in its own
+    # precision, and what an overflowing float sum gives is not the property's business)
+    unit, coef = FLOAT_GRID[dt]
+    q = coef // (size * longest)
+    return [unit * rng.randint(q // 2, q) for _ in range(size)]
+
+
+def near_limit_contents(rng, dt, size, longest):
+    if dt in INT_LIMIT:
+        return near_limit_ints(rng, INT_LIMIT[dt], size)
+    return near_limit_floats(rng, dt, size, longest)
+
+
+def rand_narrow_ops(rng, d=None):
+    """setup ops of a parent stored in a narrow type (directly from arrays of that type, or converted by set_dtype / the
+    dtype property) whose contents and squared errors are near the type's limits; returns (setup ops, axes)"""
+    d = d or rng.choice([2, 2, 3, 3, 4])
+    axes = [gennd.axis_binning(rng, maxbins=3 if d < 4 else 2) for _ in range(d)]
+    shape = [len(a[1]) for a in axes]
+    size = int(np.prod(shape))
+    dt = rng.choice(["int16", "int16", "int16", "int32", "int32", "int32", "float16", "float32"])
+    f = near_limit_contents(rng, dt, size, max(shape))
+    e = None if rng.random() < 0.4 else near_limit_contents(rng, dt, size, max(shape))
+    nm = rng.sample(["x", "y", "z", "t", "a", "b"], d) if rng.random() < 0.7 else None
+    route = rng.choice(["array", "array", "set_dtype", "dtype_property"])
+    init = {"op": "of_arrays", "out": 0, "axes": [a[0] for a in axes], "freq": [rs(x) for x in f],
+            "err2": None if e is None else [rs(x) for x in e], "missed": rs(rng.randint(0, 4)),
+            "dtype": dt if route == "array" else WIDE[dt], "names": nm, "keep": True}
+    setup = [init]
+    if route != "array":
+        setup.append({"op": "set_dtype", "h": 0, "dtype": dt, "via_property": route == "dtype_property"})
+    return setup, axes, [f"narrow:{dt}", f"narrow_route:{route}"]
+
+
+# ------------------------------------------------------------------ axis references and axis lists
+
+def spell(rng, i, names):
+    """one of the legitimate ways to refer to axis i (physt takes no negative indices)"""
+    return names[i] if rng.random() < 0.5 else i
+
+
+def bad_axis(rng, names, d, custom):
+    """a reference to an axis the histogram does not have"""
+    i = rng.randrange(d)
+    pool = [d, d, d + rng.randint(1, 3), -1, -1, -d, -(d + 1), "no_such_axis", f"axis{d}", names[i].upper(),
+            names[i] + " ", " " + names[i], names[i] * 2, str(i), ""]
+    if custom:
+        pool += [f"axis{i}", f"axis{i}"]         # the default name of an existing axis that was given another name
+    while True:
+        a = rng.choice(pool)
+        if not (isinstance(a, str) and a in names):
+            return a
+
+
+def bad_axis_list(rng, names, d, custom):
+    """an axis list projection must refuse: empty, naming one axis twice (in the same or in different spellings, anywhere
+    in the list), or containing an axis the histogram does not have; returns (list, kind)"""
+    r = rng.random()
+    if r < 0.1:
+        return [], "empty"
+    if r < 0.65:
+        base = rng.sample(range(d), rng.randint(1, d))
+        j = rng.choice(base)
+        refs = [spell(rng, i, names) for i in base]
+        first = refs[base.index(j)]
+        if rng.random() < 0.65:
+            again = j if isinstance(first, str) else names[j]      # the other spelling
+            kind = "dup_mixed_spelling"
+        else:
+            again = first
+            kind = "dup_same_spelling"
+        refs.insert(rng.randint(0, len(refs)), again)
+        return refs, kind
+    base = rng.sample(range(d), rng.randint(0, d - 1))
+    refs = [spell(rng, i, names) for i in base]
+    b = bad_axis(rng, names, d, custom)
+    refs.insert(rng.randint(0, len(refs)), b)
+    return refs, "unknown_name" if isinstance(b, str) else ("negative" if b < 0 else "out_of_range")
+
+
+def axis_list_problem(axes, names, d):
+    """why the property says this axis list has to be refused (None if it is a proper list): computed from the histogram's
+    public axis names and dimension only"""
+    if len(axes) == 0:
+        return "the list is empty"
+    seen = {}
+    for a in axes:
+        if isinstance(a, str):
+            if a not in names:
+                return f"there is no axis named {a!r}"
+            i = names.index(a)
+        else:
+            if not (0 <= a < d):
+                return f"there is no axis {a}"
+            i = a
+        if i in seen:
+            return f"{seen[i]!r} and {a!r} are the same axis"
+        seen[i] = a
+    return None
+
+
 class C09(HistNProp):
     ID = "C09"
     N_QUICK = 400
@@ -44,16 +170,36 @@ class C09(HistNProp):
             "projection onto every kind of axis list (indices or names, any order), a second projection of the result, direct "
             "construction from the kept columns, T and T.T (d = 2), accumulate(axis), and the refused axis lists (empty, duplicate, "
             "out of range, negative, unknown name). Thorough: all non-empty proper subsets in every order for d <= 4. "
+            "Refusals in every spelling (every case one, every 4th case four more, at any position of the history, on the parent "
+            "and on its 2-d / 3-d projection): lists naming one axis twice by index + name, name + index or the same way twice, "
+            "inside longer lists (up to d + 1 entries), lists with an axis the histogram does not have (index >= d, negative, "
+            "unknown / empty / differently cased name, the default name of a renamed axis, a digit string), the empty list, and "
+            "the one-axis calls accumulate / select / merge_bins(axis=) / partial_normalize with such an axis; the oracle decides "
+            "from the axis names and the dimension alone whether a list has to be refused. "
+            "Narrow content types (every 8th case, every 2nd case of the failing-input search, and as neighbours of a "
+            "disagreeing case): int16 / int32 / float16 / float32 parents built from arrays of that type or converted by "
+            "set_dtype / the dtype property, contents and squared errors near the type's limits, so that marginals and running "
+            "sums of the integer types exceed the parent type's range (float contents lie on a grid on which all sums are exact "
+            "and in range); expected values are sums of python Fractions. "
             "non-trivial = non-zero contents and at least one axis with > 1 bin dropped; distinct = op-list hash")
     FIELDS = {"bins", "shape", "freq", "err2", "total", "dtype", "names", "ndim"}
 
     def gen_case(self, rng, k, tier):
-        init, axes = rand_nd_op(rng)
-        return self.build(rng, init, axes)
+        narrow = (k % 8 == 3) or (tier == "search" and k % 2 == 1)
+        if narrow:
+            setup, axes, tags = rand_narrow_ops(rng)
+        else:
+            init, axes = rand_nd_op(rng)
+            setup, tags = [init], []
+        return self.build(rng, setup, axes, tags=tags, many_refusals=(k % 4 == 1))
 
-    def build(self, rng, init, axes, subset=None):
+    def build(self, rng, setup, axes, subset=None, tags=(), many_refusals=False):
+        if isinstance(setup, dict):
+            setup = [setup]
+        init = setup[0]
         d = len(axes)
-        ops = [init]
+        ops = list(setup)
+        custom = init["names"] is not None
         names = init["names"] or [f"axis{i}" for i in range(d)]
         if subset is None:
             m = rng.randint(1, d - 1)
@@ -61,7 +207,6 @@ class C09(HistNProp):
         ref = lambda i: names[i] if rng.random() < 0.4 else i
         ops.append({"op": "projection", "h": 0, "axes": [ref(i) for i in subset], "out": 1})
         kept = sorted(subset)
-        nxt = 2
         if len(kept) >= 2:
             sub2 = rng.sample(range(len(kept)), rng.randint(1, len(kept) - 1))
             knames = [names[i] for i in kept]
@@ -74,8 +219,43 @@ class C09(HistNProp):
             ops.append({"op": "T", "h": 4, "out": 5})
         ax = rng.randrange(d)
         ops.append({"op": "accumulate", "h": 0, "axis": names[ax] if rng.random() < 0.3 else ax, "out": 6, "_axis": ax})
-        ops.append({"op": "invalid", "what": rng.choice(["proj_none", "proj_dup", "proj_range", "proj_name", "proj_neg", "acc_range"]), "h": 0})
-        return {"kind": "histn", "ops": ops, "tags": [f"d:{d}", f"keep:{len(kept)}"], "subset": list(subset)}
+        tags = list(tags) + [f"d:{d}", f"keep:{len(kept)}"]
+        # --- calls that have to be refused
+        if rng.random() < 0.25:
+            what = rng.choice(["proj_none", "proj_dup", "proj_range", "proj_name", "proj_neg", "acc_range"])
+            ops.append({"op": "invalid", "what": what, "h": 0})
+            n_ref = 0
+        else:
+            n_ref = 1
+        if many_refusals:
+            n_ref += 4
+            tags.append("refusal_stream")
+        for _ in range(n_ref):
+            r = rng.random()
+            if r < 0.15 and len(kept) >= 2:
+                # on the projection (register 1, a 2-d / 3-d histogram with the kept axes' names)
+                knames = [names[i] for i in kept]
+                lst, kind = bad_axis_list(rng, knames, len(kept), custom)
+                op = {"op": "projection", "h": 1, "axes": lst, "out": 7, "expect": "refused"}
+                lo = next(i for i, o in enumerate(ops) if o.get("out") == 1) + 1
+                tags.append("refuse_on_projection")
+            elif r < 0.7:
+                lst, kind = bad_axis_list(rng, names, d, custom)
+                op = {"op": "projection", "h": 0, "axes": lst, "out": 7, "expect": "refused"}
+                lo = len(setup)
+            else:
+                b = bad_axis(rng, names, d, custom)
+                call = rng.choice(["accumulate", "select", "merge"] + (["partial_normalize"] if d == 2 else []))
+                op = {"op": call, "h": 0, "axis": b, "out": 8, "expect": "refused"}
+                if call == "select":
+                    op["index"] = 0
+                if call == "merge":
+                    op["amount"] = 1
+                kind = f"{call}_bad_axis"
+                lo = len(setup)
+            tags.append(f"refuse:{kind}")
+            ops.insert(rng.randint(lo, len(ops)), op)        # anywhere in the history
+        return {"kind": "histn", "ops": ops, "tags": tags, "subset": list(subset), "setup": len(setup)}
 
     def exhaustive_cases(self, tier):
         if tier != "thorough":
@@ -90,69 +270,154 @@ class C09(HistNProp):
                     c["tags"].append("exhaustive_axis_lists")
                     yield c
 
+    def neighbours(self, case):
+        """the same history on a parent stored as int16 / int32 with every bin near the type's maximum (marginals and
+        running sums then exceed the parent type's range), directly and through set_dtype"""
+        ops = case["ops"]
+        ns = case.get("setup", 1)
+        if not ops or ops[0].get("op") != "of_arrays":
+            return
+        for dt, lim in INT_LIMIT.items():
+            for variant in range(3):
+                def near(vals, shift):
+                    out = []
+                    for i, v in enumerate(vals):
+                        q = int(Fraction(v))
+                        out.append(rs(lim - ((7 * q + 3 * i + shift) % 11) * (1 if variant == 0 else lim // 37)))
+                    return out
+                c = copy.deepcopy(case)
+                init = c["ops"][0]
+                init["freq"] = near(init["freq"], 0)
+                if init.get("err2") is not None:
+                    init["err2"] = near(init["err2"], 5)
+                rest = [o for o in c["ops"][ns:]]
+                if variant == 2:
+                    init["dtype"] = "int64"
+                    c["ops"] = [init, {"op": "set_dtype", "h": 0, "dtype": dt}] + rest
+                else:
+                    init["dtype"] = dt
+                    c["ops"] = [init] + rest
+                c["setup"] = len(c["ops"]) - len(rest)
+                c["tags"] = list(c.get("tags", [])) + [f"narrow:{dt}", "neighbour"]
+                yield c
+
     def shrink_candidates(self, case):
         ops = case["ops"]
-        for k in range(len(ops) - 1, 1, -1):
-            if any(o.get("h") == ops[k].get("out") for o in ops[k + 1:] if "out" in ops[k]):
+        ns = case.get("setup", 1)
+        for k in range(len(ops) - 1, ns - 1, -1):
+            if "out" in ops[k] and any(o.get("h") == ops[k]["out"] for o in ops[k + 1:]):
                 continue
             c = copy.deepcopy(case)
             del c["ops"][k]
             yield c
+        for k in range(ns, len(ops)):
+            if ops[k]["op"] == "projection":
+                for j in range(len(ops[k]["axes"])):
+                    c = copy.deepcopy(case)
+                    del c["ops"][k]["axes"][j]
+                    yield c
+
+    def tags(self, case, io):
+        t = super().tags(case, io)
+        try:
+            src = io["outs"][case.get("setup", 1) - 1]["regs"][0]
+            lim = self.DTYPE_LIMITS.get(src["dtype"])
+            if lim is not None and src["dtype"] != "int64":
+                F = obj_arr(src["freq"], src["shape"])
+                if any(x > lim for ax in range(src["ndim"]) for x in np.asarray(F.sum(axis=ax), dtype=object).ravel()):
+                    t.append("marginal_exceeds_parent_dtype_range")
+        except Exception:
+            pass
+        return t
 
     def oracle(self, case, io):
         outs, ops = io["outs"], case["ops"]
+        ns = case.get("setup", 1)
         fails = []
         if outs[0]["ret"] == "REFUSED":
             return ["refused_valid: setup refused: " + "; ".join(io["log"][:2])]
-        src = outs[0]["regs"][0]
+        src = outs[ns - 1]["regs"][0]       # the parent as it is after the setup ops (construction, change of content type)
         d = src["ndim"]
         F = obj_arr(src["freq"], src["shape"])
         E = obj_arr(src["err2"], src["shape"])
-        names = src["names"]
 
         def resolve(a, nm):
             return nm.index(a) if isinstance(a, str) else a
 
+        def flat(a):
+            return list(np.asarray(a, dtype=object).ravel())
+
         for k, op in enumerate(ops):
+            if k < ns:
+                continue
             ret = outs[k]["ret"]
             regs = outs[k]["regs"]
+            before = outs[k - 1]["regs"]
             if regs[0] != src:
                 fails.append(f"source_modified: step {k} ({op['op']}) modified the parent")
             if op["op"] == "invalid":
                 if ret != "REFUSED":
                     fails.append(f"accepted_invalid: {op['what']} accepted")
                 continue
-            if ret == "REFUSED":
-                fails.append(f"refused_valid: {op} refused: " + "; ".join(io["log"][:2]))
+            # the histogram the call is made on, as observed before the call
+            par = before[op["h"]] if isinstance(op.get("h"), int) and op["h"] < len(before) else None
+            if par is None:
                 continue
-            if op["op"] == "projection" and op["h"] == 0:
-                axs = sorted(resolve(a, names) for a in op["axes"])
-                drop = tuple(i for i in range(d) if i not in axs)
+            if op["op"] in ("projection", "accumulate", "select", "merge", "partial_normalize"):
+                lst = op["axes"] if op["op"] == "projection" else [op["axis"]]
+                why = axis_list_problem(lst, par["names"], par["ndim"])
+                if why is not None:
+                    if ret != "REFUSED":
+                        got = regs[op["out"]] if op.get("out", 10**6) < len(regs) else None
+                        what = "" if not got else f" and returned a {got['ndim']}-d histogram over {got['names']}"
+                        call = f"projection{tuple(lst)}" if op["op"] == "projection" else f"{op['op']}(axis={lst[0]!r})"
+                        fails.append(f"accepted_invalid: {call} of a {par['ndim']}-d histogram with axes {par['names']} was "
+                                     f"accepted{what} although {why}")
+                    if regs[op["h"]] != par:
+                        fails.append(f"refused_modified: the refused call {op['op']} at step {k} changed the histogram")
+                    continue
+                if op["op"] in ("select", "merge", "partial_normalize"):
+                    continue        # with an existing axis: other properties' business
+            if ret == "REFUSED":
+                fails.append(f"refused_valid: {op} of the {par['dtype']} histogram {par['freq']} (shape {par['shape']}, axes "
+                             f"{par['names']}) refused: " + "; ".join(io["log"][:2]))
+                continue
+            if op["op"] == "projection":
+                pn, pd = par["names"], par["ndim"]
+                PF = obj_arr(par["freq"], par["shape"])
+                PE = obj_arr(par["err2"], par["shape"])
+                axs = sorted(resolve(a, pn) for a in op["axes"])
+                drop = tuple(i for i in range(pd) if i not in axs)
                 r = regs[op["out"]]
-                ef = F.sum(axis=drop) if drop else F
-                ee = E.sum(axis=drop) if drop else E
-                if [Fraction(x) for x in r["freq"]] != list(np.asarray(ef, dtype=object).ravel()):
-                    fails.append(f"marginal: projection{tuple(op['axes'])} contents {r['freq']} are not the sums over the dropped axes")
-                if [Fraction(x) for x in r["err2"]] != list(np.asarray(ee, dtype=object).ravel()):
-                    fails.append(f"marginal_err2: projection{tuple(op['axes'])} squared errors are not the sums over the dropped axes")
-                if r["bins"] != [src["bins"][i] for i in axs]:
+                ef = PF.sum(axis=drop) if drop else PF
+                ee = PE.sum(axis=drop) if drop else PE
+                if [Fraction(x) for x in r["freq"]] != flat(ef):
+                    fails.append(f"marginal: projection{tuple(op['axes'])} of the {par['dtype']} histogram {par['freq']} (shape "
+                                 f"{par['shape']}): contents {r['freq']} are not the sums over the dropped axes {[str(x) for x in flat(ef)]}")
+                if [Fraction(x) for x in r["err2"]] != flat(ee):
+                    fails.append(f"marginal_err2: projection{tuple(op['axes'])} squared errors {r['err2']} are not the sums over "
+                                 f"the dropped axes {[str(x) for x in flat(ee)]}")
+                if r["bins"] != [par["bins"][i] for i in axs]:
                     fails.append(f"proj_bins: projection{tuple(op['axes'])} bins are not those of axes {axs} in original order")
-                if r["names"] != [names[i] for i in axs]:
-                    fails.append(f"proj_names: projection{tuple(op['axes'])} names {r['names']}, expected {[names[i] for i in axs]}")
-                if Fraction(r["total"]) != Fraction(src["total"]):
-                    fails.append("proj_total: total changed")
+                if r["names"] != [pn[i] for i in axs]:
+                    fails.append(f"proj_names: projection{tuple(op['axes'])} names {r['names']}, expected {[pn[i] for i in axs]}")
+                if Fraction(r["total"]) != Fraction(par["total"]):
+                    fails.append(f"proj_total: total changed from {par['total']} to {r['total']}")
                 if r["ndim"] != len(axs):
                     fails.append("proj_ndim")
-            if op["op"] == "projection" and op["h"] == 1 and len(regs) > 3 and regs[3] is not None:
-                pass
-            if op["op"] == "T":
-                pass
-            if op["op"] == "accumulate":
-                ax = op["_axis"]
+            if op["op"] == "accumulate" and op["h"] == 0:
+                ax = resolve(op["axis"], src["names"])
                 r = regs[op["out"]]
                 cs = np.cumsum(F, axis=ax)
-                if [Fraction(x) for x in r["freq"]] != list(np.asarray(cs, dtype=object).ravel()):
-                    fails.append(f"accumulate: accumulate({op['axis']}) is not the running sum along axis {ax}")
+                got = [Fraction(x) for x in r["freq"]]
+                if got != flat(cs):
+                    fails.append(f"accumulate: accumulate({op['axis']!r}) of the {src['dtype']} histogram {src['freq']} (shape "
+                                 f"{src['shape']}) gives {r['freq']}, not the running sums along axis {ax} {[str(x) for x in flat(cs)]}")
+                elif r["shape"] == src["shape"]:
+                    # last cumulative entry = marginal over that axis
+                    lastslice = flat(np.take(obj_arr(r["freq"], r["shape"]), -1, axis=ax))
+                    if lastslice != flat(F.sum(axis=ax)):
+                        fails.append(f"accumulate_last: the last entries of accumulate({op['axis']!r}) are not the marginal over axis {ax}")
                 if r["bins"] != src["bins"] or r["names"] != src["names"]:
                     fails.append("accumulate_bins: accumulate changed bins or names")
         last = outs[-1]["regs"]
@@ -177,7 +442,7 @@ class C09(HistNProp):
 
     def nontrivial(self, case, io):
         try:
-            s = io["outs"][0]["regs"][0]
+            s = io["outs"][case.get("setup", 1) - 1]["regs"][0]
             return any(Fraction(x) != 0 for x in s["freq"]) and any(n > 1 for n in s["shape"])
         except Exception:
             return False
